@@ -57,7 +57,8 @@ class TransformAnnotation(ast.NodeTransformer):
         # Build a stack of args to the bitor
         args = collections.deque([node.right])
         left = node.left
-        while isinstance(left, ast.BinOp):
+        # Only `|` chains are unions: stop at any other operator (e.g. `a + b | c`).
+        while isinstance(left, ast.BinOp) and isinstance(left.op, ast.BitOr):
             args.appendleft(left.right)
             left = left.left
         args.appendleft(left)
